@@ -89,3 +89,142 @@ def rule_integral(x, y, rule, lo, hi):
 def abs_integral(x, y, lo, hi):
     import math
     return math.fsum((abs(y[i]) + abs(y[i + 1])) * (x[i + 1] - x[i]) for i in range(lo, hi))
+
+
+# ---- shape functions (C06a), written from the documented closed forms ---------------------------------------
+
+def shape(name, t, exponent):
+    """Fraction of the way from y0 to y1 at relative position t in [0, 1]."""
+    if name == "lin":
+        return t
+    if name == "exp":
+        return t ** exponent
+    if name == "exp_xy":
+        return 1 - (1 - t) ** exponent
+    if name == "exp_lin":          # linear * t + power * (1 - t)
+        return t * t + (1 - t) * t ** exponent
+    if name == "lin_exp_xy":       # mirrored power * t + linear * (1 - t)
+        return t * (1 - (1 - t) ** exponent) + (1 - t) * t
+    raise KeyError(name)
+
+
+def _blend(y0, y1, f):
+    return y0 + (y1 - y0) * f
+
+
+# ---- reference model of the transition-window strategies (C06b/c), from the class docstrings --------------------
+
+def extended_grid(x, n):
+    """x_ext[k][i], k = -1 .. m-1 (virtual interval on each side continuing the neighbouring spacing)."""
+    m = len(x)
+    grid = {}
+    for k in range(-1, m):
+        if k == -1:
+            x0, step = x[0] - (x[1] - x[0]), (x[1] - x[0]) / n
+        elif k == m - 1:
+            x0, step = x[m - 1], (x[m - 1] - x[m - 2]) / n
+        else:
+            x0, step = x[k], (x[k + 1] - x[k]) / n
+        grid[k] = [x0 + step * i for i in range(n + 1)]
+    return grid
+
+
+def fixed_windows(a, m):
+    """a_l = a_r = int(a/2) for every interval"""
+    h = int(a / 2)
+    return [(h, h)] * (m - 1)
+
+
+def adaptive_window_candidates(y, a, k):
+    """Admissible (a_l, a_r) of interval k (0..m-2) under the documented rule with adaptive_smooth = 1:
+    gamma = |right jump| / |left jump|, a_l = int(clip(gamma*a/(1+gamma), 1, a)), a_r = int(clip(a/(1+gamma), 1, a));
+    ties: no window on a side without a jump, int(a/2) on the side that changes.  The real-valued window is
+    evaluated in exact rationals; if it lies within 1e-9 of an integer both neighbouring integers are admissible."""
+    left = y[k - 1] if k > 0 else y[k]
+    nom = abs(y[k + 1] - y[k])
+    den = abs(y[k] - left)
+    if nom == 0 and den == 0:
+        return [(0, 0)]
+    if nom == 0:
+        return [(int(a / 2), 0)]
+    if den == 0:
+        return [(0, int(a / 2))]
+    fn, fd = Fraction(nom), Fraction(den)
+    ql = fn * a / (fd + fn)
+    qr = fd * a / (fd + fn)
+
+    def cands(q):
+        q = min(max(q, Fraction(1)), Fraction(a))
+        base = int(q)
+        out = {base}
+        eps = Fraction(1, 10 ** 9) * max(1, base)
+        if q - base < eps and base - 1 >= 1:
+            out.add(base - 1)
+        if (base + 1) - q < eps and base + 1 <= a:
+            out.add(base + 1)
+        return sorted(out)
+    return [(l, r) for l in cands(ql) for r in cands(qr)]
+
+
+def window_model(x, y, n, windows, family, beta=0.5, exponent=2.0, virtual=(1, 1)):
+    """Values of all intervals 0..m-2 (list of m-1 lists of n values) given per-interval windows (a_l, a_r).
+    family 'linear': straight line between border value and plateau; family 'exp': linear piece of
+    b = int(beta * window) samples next to the border followed by the linear/power blend up to the plateau."""
+    m = len(x)
+    g = extended_grid(x, n)
+
+    def win(k):      # windows of the virtual neighbours beyond the two ends (only the right one matters: the
+        if 0 <= k < m - 1:   # statement speaks of interior borders, callers do not judge that transition)
+            return windows[k]
+        return virtual
+
+    def yv(k):       # plateau value incl. virtual neighbours
+        if k < 0:
+            return y[0]
+        return y[min(k, m - 1)]
+
+    def border(k):
+        """value at the border between interval k-1 and k (abscissa x_ext[k][0])"""
+        ar_prev = win(k - 1)[1]
+        al = win(k)[0]
+        if ar_prev == 0 and al == 0:
+            return yv(k - 1)
+        xa = g[k - 1][n - ar_prev]
+        xb = g[k][al]
+        t = (g[k][0] - xa) / (xb - xa)
+        return _blend(yv(k - 1), yv(k), t)
+
+    out = []
+    for k in range(m - 1):
+        al, ar = windows[k]
+        yk = y[k]
+        z = [yk] * n
+        z0 = border(k)
+        z1 = border(k + 1)
+        xs = g[k]
+        if family == "linear":
+            for i in range(al):
+                t = (xs[i] - xs[0]) / (xs[al] - xs[0])
+                z[i] = _blend(z0, yk, t)
+            for i in range(n - ar + 1, n):
+                t = (xs[i] - xs[n - ar]) / (xs[n] - xs[n - ar])
+                z[i] = _blend(yk, z1, t)
+        else:
+            bl, br = int(beta * al), int(beta * ar)
+            if al > 0:
+                zb = _blend(z0, yk, (xs[bl] - xs[0]) / (xs[al] - xs[0]))
+                for i in range(bl):
+                    z[i] = _blend(z0, zb, (xs[i] - xs[0]) / (xs[bl] - xs[0]))
+                for i in range(bl, al):
+                    t = (xs[i] - xs[bl]) / (xs[al] - xs[bl])
+                    z[i] = _blend(zb, yk, shape("lin_exp_xy", t, exponent))
+            if ar > 0:
+                zb = _blend(yk, z1, (xs[n - br] - xs[n - ar]) / (xs[n] - xs[n - ar]))
+                for i in range(n - ar, n - br):
+                    t = (xs[i] - xs[n - ar]) / (xs[n - br] - xs[n - ar])
+                    z[i] = _blend(yk, zb, shape("exp_lin", t, exponent))
+                for i in range(n - br, n):
+                    t = (xs[i] - xs[n - br]) / (xs[n] - xs[n - br])
+                    z[i] = _blend(zb, z1, t)
+        out.append(z)
+    return out
